@@ -26,6 +26,13 @@ func (m MsgID) String() string { return fmt.Sprintf("%d>%d k%d", m.From, m.To, m
 // is overtaken by everything its sender and everybody else emits in the meantime. Must be called
 // inside a synctest bubble. Returns stored data, errors and the delivery trace.
 func DKGAsync(backend string, n, t, msgLen int, delayed map[MsgID]bool, timeout time.Duration) (map[uint16][]byte, map[uint16]error, []string) {
+	return DKGAsyncOpt(backend, n, t, msgLen, delayed, timeout, false)
+}
+
+// DKGAsyncOpt: with fifo set, every sender->receiver link keeps its order: a delayed message holds
+// back what the same sender emits to the same receiver after it (links are delayed against one
+// another, never reordered within themselves).
+func DKGAsyncOpt(backend string, n, t, msgLen int, delayed map[MsgID]bool, timeout time.Duration, fifo bool) (map[uint16][]byte, map[uint16]error, []string) {
 	parties := IDs(n)
 	inst := map[uint16]tss.KeyGenerator{}
 	for _, id := range parties {
@@ -75,11 +82,15 @@ func DKGAsync(backend string, n, t, msgLen int, delayed map[MsgID]bool, timeout 
 		synctest.Wait()
 		mu.Lock()
 		pick := -1
+		held := map[[2]uint16]bool{}
 		for i, p := range q {
-			if !delayed[p.id] {
-				pick = i
-				break
+			link := [2]uint16{p.id.From, p.id.To}
+			if delayed[p.id] || fifo && held[link] {
+				held[link] = true
+				continue
 			}
+			pick = i
+			break
 		}
 		if pick < 0 && len(q) > 0 {
 			pick = 0
